@@ -28,7 +28,7 @@ theorem teardownPhaseObject_kept (cfg : Cfg) (ow : Owner) (p : PObj) (w : World)
 theorem teardown_object_notDone (cfg : Cfg) (ow : Owner) (p : PObj) (w : World)
     (h : (teardownPhaseObject cfg ow p w).2 = .notDone) : ¬ Released cfg ow p w.store := by
   intro hrel
-  simp only [teardownPhaseObject] at h
+  simp only [teardownPhaseObject, watch_store, watch_beforeWrite_store] at h
   split at h
   · cases h
   · cases h
@@ -48,7 +48,7 @@ theorem teardown_object_done (cfg : Cfg) (ow : Owner) (p : PObj) (w : World) (hq
     (h : (teardownPhaseObject cfg ow p w).2 = .done) (hpf : preflightObj cfg ow "" false p = .ok) :
     Released cfg ow p w.store := by
   intro o hg
-  simp only [teardownPhaseObject, hpf, hg] at h
+  simp only [teardownPhaseObject, watch_store, watch_beforeWrite_store, hpf, hg] at h
   cases hc : isController cfg.st (ow.ref true) o with
   | false => rfl
   | true =>
